@@ -60,6 +60,11 @@ var quickStates = []stateSpec{
 	{k: kind{multi: true, sr: true, vt: false, skip: true}, nprep: 1, ahead: 2, ntx: 3, slim: true, extraA: 3},
 	// VerifyTransactions off and six transactions: [t1..t6,t5,t6] has the Merkle root, hash and signature of [t1..t6]
 	{k: kind{multi: true, vt: false}, nprep: 1, ntx: 6, slim: true},
+	// controls for the post-block mempool filter: the pooled transaction must survive the tip block (another
+	// attribute's fee raised; FeePerByte raised and already covered) / is dropped when one unit short
+	{k: kind{multi: false, vt: true}, nprep: 1, ntx: 2, stale: 8},
+	{k: kind{multi: true, vt: true}, nprep: 1, ntx: 2, stale: 9},
+	{k: kind{multi: false, vt: true}, nprep: 1, ntx: 2, stale: 10},
 }
 
 func randomSpec(r *prng.R) stateSpec {
@@ -461,9 +466,9 @@ func (st *state) blockLine(op string, known []hdrInfo, b *block.Block, v vector)
 	if len(hs) > 0 {
 		txh = strings.Join(hs, ",")
 	}
-	line = fmt.Sprintf("%s idx=%d sre=%d hash=%s prev=%s ts=%d nc=%s psr=%s wit=%s prim=%d mroot=%s newroot=%s store=%d txs=%s txh=%s",
+	line = fmt.Sprintf("%s idx=%d sre=%d hash=%s prev=%s ts=%d nc=%s psr=%s wit=%s prim=%d mroot=%s newroot=%s txs=%s txh=%s",
 		op, hi.idx, b01(b.StateRootEnabled), short(hi.hash), short(hi.prev), hi.ts, short160(hi.nc), short(hi.psr), hi.wit, b.PrimaryIndex,
-		short(b.MerkleRoot), short(v.newRoot), b01(v.storeOK), tx, txh)
+		short(b.MerkleRoot), short(v.newRoot), tx, txh)
 	return
 }
 
@@ -596,6 +601,18 @@ func runCase(o *hx.Out, k int, st *state, cd *cand, r *prng.R) {
 		pt = []string{"-"}
 	}
 	o.Line("pool "+strings.Join(pt, ","), "ok")
+	if st.stale != nil && !spec.k.skip {
+		// did the transaction pooled one block below the tip survive the tip block (RemoveStale / IsTxStillRelevant)?
+		// conf: the tip block carries a transaction that names it in a Conflicts attribute (by construction)
+		obs := "dropped"
+		for _, ph := range s0.pool {
+			if ph == st.stale.Hash() {
+				obs = "kept"
+			}
+		}
+		o.Line(fmt.Sprintf("relevant conf=%d %s", b01(spec.stale == 7), st.txToken(st.stale)), obs)
+		o.Count("relevant:" + staleNames[spec.stale] + ":" + obs)
+	}
 	if s0.bh != st.h || s0.root != st.roots[st.h] || s0.hh != st.h+uint32(spec.ahead) {
 		panic("replica is not in the described state")
 	}
